@@ -30,6 +30,7 @@ import (
 	_ "google.golang.org/grpc/encoding/gzip" // server side decompressor
 	"google.golang.org/grpc/metadata"
 	"google.golang.org/grpc/stats"
+	"google.golang.org/grpc/status"
 	"google.golang.org/protobuf/proto"
 )
 
@@ -62,6 +63,26 @@ type collectors struct {
 	// httpDelay is how long an HTTP collector waits before it answers (it
 	// returns earlier when the client goes away).
 	httpDelay atomic.Int64
+	// grpcDelay: the same for the gRPC services (they hold the call until the
+	// delay has passed or the call's context is done).
+	grpcDelay atomic.Int64
+}
+
+// holdGRPC returns the status a server gives to a call whose deadline passed
+// (or that was cancelled) while it was being held: answering OK at the very
+// moment the propagated deadline expires would race with the client's own
+// timer.
+func (c *collectors) holdGRPC(ctx context.Context) error {
+	if d := time.Duration(c.grpcDelay.Load()); d > 0 {
+		t := time.NewTimer(d)
+		select {
+		case <-t.C:
+		case <-ctx.Done():
+			t.Stop()
+			return status.FromContextError(ctx.Err()).Err()
+		}
+	}
+	return nil
 }
 
 var colls collectors
@@ -216,6 +237,9 @@ type traceSvc struct {
 
 func (s *traceSvc) Export(ctx context.Context, req *coltracepb.ExportTraceServiceRequest) (*coltracepb.ExportTraceServiceResponse, error) {
 	s.c.recordGRPC(ctx, s.i, "traces", req)
+	if err := s.c.holdGRPC(ctx); err != nil {
+		return nil, err
+	}
 	return &coltracepb.ExportTraceServiceResponse{}, nil
 }
 
@@ -227,6 +251,9 @@ type metricSvc struct {
 
 func (s *metricSvc) Export(ctx context.Context, req *colmetricpb.ExportMetricsServiceRequest) (*colmetricpb.ExportMetricsServiceResponse, error) {
 	s.c.recordGRPC(ctx, s.i, "metrics", req)
+	if err := s.c.holdGRPC(ctx); err != nil {
+		return nil, err
+	}
 	return &colmetricpb.ExportMetricsServiceResponse{}, nil
 }
 
@@ -238,5 +265,8 @@ type logSvc struct {
 
 func (s *logSvc) Export(ctx context.Context, req *collogpb.ExportLogsServiceRequest) (*collogpb.ExportLogsServiceResponse, error) {
 	s.c.recordGRPC(ctx, s.i, "logs", req)
+	if err := s.c.holdGRPC(ctx); err != nil {
+		return nil, err
+	}
 	return &collogpb.ExportLogsServiceResponse{}, nil
 }
